@@ -171,8 +171,30 @@ def r4_1(rep):
 # ------------------------------------------------------------------------------------------------
 # R4.2 — link names, variadic tail, argument namers
 # ------------------------------------------------------------------------------------------------
-def local_ids(b, n, follow_tuple_lets=True):
-    """ids of all locals reachable from expression n through let-initialisers (also tuple-pattern lets)."""
+def component_exprs(b, n, path):
+    """the expressions that provide component `path` (tuple indices) of the value of n: descends through blocks, if / match
+    branches (not their conditions) to tuple literals; falls back to the whole expression."""
+    n = strip(n)
+    if not path:
+        return [n]
+    k = n["k"]
+    if k == "Block" and n.get("tail") is not None:
+        return component_exprs(b, n["tail"], path)
+    if k == "If":
+        return component_exprs(b, n["then"], path) + (component_exprs(b, n["else"], path) if "else" in n else [])
+    if k == "Match":
+        out = []
+        for a in n["arms"]:
+            out += component_exprs(b, a["body"], path)
+        return out
+    if k == "Tup" and path[0][0] == "tuple" and int(path[0][1]) < len(n["es"]):
+        return component_exprs(b, n["es"][int(path[0][1])], path[1:])
+    return [n]
+
+
+def local_ids(b, n):
+    """ids of all locals the VALUE of expression n is computed from, through let-initialisers; for a local bound by a tuple
+    pattern only the matching tuple component of the initialiser is followed."""
     out = set()
     stack = [n]
     while stack:
@@ -181,8 +203,8 @@ def local_ids(b, n, follow_tuple_lets=True):
             if y["k"] == "Local" and y["id"] not in out:
                 out.add(y["id"])
                 d = b.local_def.get(y["id"])
-                if d and d[0][0] == "let" and d[0][1].get("init") is not None and (follow_tuple_lets or not d[1]):
-                    stack.append(d[0][1]["init"])
+                if d and d[0][0] == "let" and d[0][1].get("init") is not None:
+                    stack += component_exprs(b, d[0][1]["init"], list(d[1]))
     return out
 
 
@@ -516,7 +538,7 @@ def r4_3(rep):
     ptr_calls = [c for c in tb.calls(None, pbody) if callee_of(c).endswith("ToPtr>::to_ptr") or (c["k"] == "MCall" and c["name"] == "to_ptr")]
     if rep.check(len(ptr_calls) == 1, "pointer:to_ptr-site", "one to_ptr in the Pointer/Reference arm (found %d)" % len(ptr_calls), tb.loc(pbody)):
         c = ptr_calls[0]
-        src = tb.canon(c["args"][0], 6)
+        src = tb.canon(c["args"][0], 10)
         okc = re.fullmatch(r"ir::context::BindgenContext::resolve_type\(param:ctx, match\(param:self\.ir::ty::Type::kind\)~ir::ty::TypeKind::(Pointer|Reference)\.0\)\.ir::ty::Type::is_const", src) is not None
         rep.check(okc, "pointer:constness", "`*const` iff the pointee type (the arm's own inner id, unresolved aliases included) is const: %s" % src[-120:], tb.loc(c))
         recv = tb.canon(c["recv"], 9)
@@ -698,5 +720,9 @@ def r4_3(rep):
         rep.check(has_atom(atoms, "method_is_static", False) or any("is_static" in a[0] and not a[1] for a in atoms), "this:not-for-static", "no `this` for static methods: %s"
                   % "; ".join(("" if a[1] else "!") + a[0][-40:] for a in atoms[-3:]), ft.loc(typed[0]))
     cw = find_calls(ft, ft.root, "BindgenContext::build_const_wrapper")
-    okcw = len(cw) == 1 and any("method_is_const" in a[0] and a[1] for a in guard_atoms(ft, cw[0]))
+    okcw = len(cw) == 1 and bool(typed)
+    if okcw:
+        base = {(a[0], a[1]) for a in guard_atoms(ft, typed[0])}
+        extra = [(a[0], a[1]) for a in guard_atoms(ft, cw[0]) if (a[0], a[1]) not in base]
+        okcw = any("method_is_const" in s_ and p_ for s_, p_ in extra) and all(p_ and ("method_is_const" in s_ or "CXCursor_CXXMethod" in s_) for s_, p_ in extra)
     rep.check(okcw, "this:const-method-const-this", "`this` points to the const-qualified class exactly for const methods", ft.loc(cw[0]) if cw else ft.loc(ft.root))
